@@ -71,6 +71,18 @@ func (a *AliasMangler) Mangle(sf reflect.StructField) ([]reflect.StructField, er
 		return nil, fmt.Errorf("error parsing struct tags: %w", parseErr)
 	}
 
+	// Source-specific tags (e.g. dialsenv) that don't have an alias of their
+	// own must not be inherited by the alias copy: both copies would then be
+	// looked up under the same name (and always be "both set"). Without the
+	// tag, the copy's name is derived from the aliased dials tag instead.
+	if len(a.tags) > 1 {
+		for _, tag := range a.tags[1:] {
+			if _, hasAlias := aliasVals[tag]; !hasAlias {
+				tags.Delete(tag)
+			}
+		}
+	}
+
 	// keep track of the aliases we actually set so we can update the dialsdesc
 	setAliases := []string{}
 
